@@ -348,9 +348,12 @@ def step_oracle(op, info):
         if p0 > 0 and (r1 != r0 + 1 or f1 not in (f0, f0 + 1)) or p0 == 0 and (r1, f1) != (r0, f0):
             return f'producer.update(): sizes {info[0]} -> {info[1]}'
     elif t == 'F':
+        # one complex event taken if any; a response pending BEFORE the call must be taken; one produced by this very
+        # call may or may not be taken in the same call (the property does not say); never more than one
         popped = 1 if f0 > 0 else 0
-        resp = 1 if (h0 + nex) > 0 else 0
-        if f1 != f0 - popped or nex > popped or h1 != h0 + nex - resp or r1 != r0 + resp or (d1, p1) != (d0, p0):
+        resp = h0 + nex - h1
+        lo, hi = (1 if h0 > 0 else 0), (1 if (h0 + nex) > 0 else 0)
+        if f1 != f0 - popped or nex > popped or not (lo <= resp <= hi) or r1 != r0 + resp or (d1, p1) != (d0, p0):
             return f'forwarder.update(): sizes {info[0]} -> {info[1]} with {nex} execute() calls'
     return None
 
